@@ -13,7 +13,7 @@ fi
 cd /verif
 S=$(date +%s)
 cp evidence/$P.json "$W/evidence.bak" 2>/dev/null
-OUT=$(QSMTP_SRC="$W/repo" ./check $P 2>&1 | grep -E "^VIOLATION" | head -2)
+OUT=$(QSMTP_SRC="$W/repo" ./check $P 2>&1 | grep -E "^VIOLATION" | head -4)
 cp "$W/evidence.bak" evidence/$P.json 2>/dev/null
 E=$(( $(date +%s) - S ))
 echo "$N [$P] ${E}s: ${OUT:-no violation reported}"
